@@ -143,7 +143,7 @@ theorem renderer_text_plain (d : Backend) (q : Query) (hm : SeaQ.Plain.bad (rQue
   | inr hall => exact plain_of_okP d t (List.all_eq_true.mp hall _ ht)
 
 /-- `render_safe` with the condition on the caller's input only: no panic marker, representable inline constants,
-caller-supplied raw text non-empty and free of quote characters and marks, no template -/
+caller-supplied raw text non-empty and free of quote characters and marks, templates lexically safe on their own (`Template.ok`) -/
 theorem render_safe_user (d : Backend) (inl : Bool) (q : Query)
     (hu : (rQuery d q).all (userOK d inl) = true) : safe d inl false 0 (rQuery d q) = true := by
   apply render_safe
@@ -181,6 +181,18 @@ def demoQ : Query :=
     .nil .empty .nil (.cons (.col (.col "a")) .desc none .nil) (some ⟨"Unsigned", .int 3⟩) none none "" none)
 example : (rQuery .postgres demoQ).all (contentOK .postgres false) = true := by decide
 example : (rQuery .mysql demoQ).all (contentOK .mysql true) = true := by decide
+/-- custom templates are covered when they are lexically safe on their own (`Template.ok`: chunks non-empty, no
+value glued to a word character, a digit or a quote; decidable from the template text and the number of values):
+`SELECT "a" FROM "t" WHERE "a" + ? < abs(?)` written as `cust_with_values("? + ? < abs(?)", [a, 1, 2])` -/
+def demoT : Query :=
+  .sel (.mk none none (.cons (.col (.col "a")) .none none .nil) (.cons (.named ⟨["t"], none⟩) .nil) [] none .nil
+    (.cond (.mk false false
+      (.consE (.custWith "? + ? < abs(?)" (.cons (.col (.col "a")) (.cons (.value ⟨"Int", .int 1⟩) (.cons (.value ⟨"Int", .int 2⟩) .nil)))) .nil)))
+    .nil .empty .nil .nil none none none "" none)
+example : (rQuery .postgres demoT).all (contentOK .postgres false) = true := by decide
+example : (rQuery .sqlite demoT).all (contentOK .sqlite true) = true := by decide
+/-- … and a template that glues a value to a word is not (`?abc`): it keeps its mark and stays outside the hypothesis -/
+example : (rEx .mysql (.custWith "x = ?abc" (.cons (.value ⟨"Int", .int 1⟩) .nil))).head? = some (.raw []) := by decide
 /-! Non-vacuity: a statement with a quoted name containing the mark, a string literal
 containing marks and quotes, and three parameters; and a text the reading rejects. -/
 def demo : Pieces :=
